@@ -28,7 +28,8 @@ REQUIRED = ["identities_checked", "assorter:plurality", "assorter:supermajority"
             "elections_with_unfindable_cards", "elections_with_missing_contest_mvr", "style_on", "style_off",
             "identities_rechecked_after_cvrs_revised_in_place", "population_checked",
             "population_data_compared_with_per_card_values", "pool_dict_restricted_to_audited_contests",
-            "null_mean_of_the_configured_test_checked", "elections_with_a_batch_holding_pooled_and_unpooled_cards"]
+            "null_mean_of_the_configured_test_checked", "elections_with_a_batch_holding_pooled_and_unpooled_cards",
+            "audits_without_style_whose_contest_objects_do_not_carry_the_flag"]
 ASSUMPTIONS = ["add_pool_contests applied under style (documented precondition of ONEAudit); a batch label may be shared by "
                "pooled and unpooled cards: the batch mean is then over the flagged cards", "A_i is computed by reference assorters written from the definitions "
                "(cross-checked against the real assorters by C02 and C14)"]
@@ -46,6 +47,8 @@ def run_shard(spec, rec):
         es = E.gen_spec(rng, audit_types=("CARD_COMPARISON", "ONEAUDIT"))
         if i % 3 == 0:
             es["cvr_revisions"] = gen_revisions(rng, es)
+        if not es["use_style"] and rng.random() < 0.3:
+            es["contest_style_flag_unset"] = True
         run_case(es, rec)
 
 
@@ -80,6 +83,8 @@ def run_case(es, rec):
     rec.count("style_on" if sim.use_style else "style_off")
     if es.get("restrict_pool_dict") and sim.use_style and pooled:
         rec.count("pool_dict_restricted_to_audited_contests")
+    if es.get("contest_style_flag_unset"):
+        rec.count("audits_without_style_whose_contest_objects_do_not_carry_the_flag")
     if n_ph:
         rec.count("elections_with_phantoms")
     if pooled:
@@ -150,7 +155,13 @@ def check_identities(es, sim, rec):
             if not ok:
                 return False
             d = [float(v) for v in du[0]]
-            rec.count("population_data_compared_with_per_card_values")
+            if bool(con.use_style) != bool(sim.use_style):
+                # the data route selects cards by the CONTEST object's flag (C06's clause); where that flag was left at
+                # its default and differs from the stratum's, the card-by-card comparison has no common population
+                rec.count("population_data_not_compared:contest_flag_differs_from_stratum")
+                d = list(Bs)
+            else:
+                rec.count("population_data_compared_with_per_card_values")
             if len(d) != len(Bs) or any(not math.isclose(x, y, rel_tol=1e-12, abs_tol=1e-15) for x, y in zip(d, Bs)):
                 j = next((k for k, (x, y) in enumerate(zip(d, Bs)) if not math.isclose(x, y, rel_tol=1e-12, abs_tol=1e-15)), min(len(d), len(Bs)))
                 cv = sim.cvr_list[idx[j]] if j < len(idx) else None
